@@ -21,10 +21,12 @@ partial def loop {σ : Type} (h : IO.FS.Stream) (out : IO.FS.Stream) (init : σ)
     if t.startsWith "#" then loop h out init step s
     else if t.startsWith "===" then
       out.putStrLn line.trimAscii.toString
+      out.flush
       loop h out init step init
     else
       let (s', o) := step s toks
       out.putStrLn o
+      out.flush
       loop h out init step s'
 
 def main (args : List String) : IO UInt32 := do
